@@ -4,6 +4,7 @@ package c04
 import (
 	"bytes"
 	"context"
+	"encoding/json"
 	"fmt"
 	"os"
 	"os/exec"
@@ -154,6 +155,44 @@ func Aux(args []string) int {
 	return 0
 }
 
+// adversarial string contents: every string-valued member of the base documents is replaced by
+// every entry of this menu (structural characters of the actor / identifier / date / reference
+// mini-syntaxes the unserializers parse, sentinels, empty, blanks, control and non-ASCII text).
+var stringMenu = []string{
+	"", " ", "\t\n", "(", ")", ")(", "()", "a) b (c)", "x (y) z (w)", "Organization: ACME (Holdings) Ltd. (legal@acme.example)", "Person: J) Doe (jd@example.com)",
+	"Person:", "Organization: ", "Tool: ", ": ", ":", "a:b:c", "NOASSERTION", "NONE", "SPDXRef-", "SPDXRef-DOCUMENT", "DocumentRef-x:SPDXRef-y", "DocumentRef-:", "SPDXRef-a b",
+	"pkg:", "pkg:/", "cpe:2.3:", "cpe:/", "2023-13-45T99:99:99Z", "0000-00-00T00:00:00Z", "2023-11-15", "-1", "1e999", "\u0000", "\u00e9\u2713\U0001F600", "%s%d%v", "../../etc/passwd", "urn:uuid:", "urn:uuid:zz",
+	"SHA256", "sha-256", "MD7", "OTHER", "other", "DESCRIBES", "describes", "CONTAINS ", "library", "LIBRARY", "operating-system", "1.5", "SPDX-2.3", "CycloneDX",
+}
+
+func stringValues(c *engine.Ctx, name string, root *jsonfault.Node, paths []jsonfault.Path, labels []string) {
+	c.Group(name + "-string-values")
+	n := 0
+	for pi := range paths {
+		par := root
+		for _, i := range paths[pi][:len(paths[pi])-1] {
+			par = par.Elems[i]
+		}
+		el := par.Elems[paths[pi][len(paths[pi])-1]]
+		if el.Kind != jsonfault.Scalar || !strings.HasPrefix(el.Raw, `"`) {
+			continue
+		}
+		n++
+		for vi := range stringMenu {
+			pi, vi := pi, vi
+			c.Case(func() any { return map[string]string{"base": name, "path": labels[pi], "string": stringMenu[vi]} }, func(t *engine.T) *engine.Violation {
+				rb, _ := json.Marshal(stringMenu[vi])
+				raw := string(rb)
+				f := jsonfault.Fault{Name: "string", Apply: func(p *jsonfault.Node, i int) { p.Elems[i] = &jsonfault.Node{Raw: raw} }}
+				in, _ := jsonfault.Mutate(root, []jsonfault.Path{paths[pi]}, []jsonfault.Fault{f})
+				t.State(fmt.Sprintf("%s|%s|str%d", name, labels[pi], vi))
+				return probe(t, []byte(in), false)
+			})
+		}
+	}
+	c.Bound(name+"-string-values", fmt.Sprintf("%d string-valued members x %d adversarial contents", n, len(stringMenu)))
+}
+
 // growth: arrays of k copies of their first element; the parsed document must not grow faster than
 // the square of the input size (an exponential blow-up in the number of elements is caught at k=22
 // without exhausting memory).
@@ -255,6 +294,7 @@ func Run(c *engine.Ctx) {
 				})
 			}
 		}
+		stringValues(c, b.name, root, paths, labels)
 		growth(c, b.name, root, paths, labels)
 		c.Group(b.name + "-double")
 		c.Bound(b.name+"-double", fmt.Sprintf("all unordered pairs of distinct non-nested paths (%d paths) x %d^2 fault pairs, auto-detect", len(paths), len(pairMenu)))
